@@ -170,7 +170,22 @@ class _Gen(object):
         r = self.r
         name = self.var()
         n = r.choice((2, 3, 3, 4, 5, 6))
-        shape = r.choice(('ifchain', 'ifchain', 'try', 'nested', 'instances', 'instances'))
+        shape = r.choice(('ifchain', 'ifchain', 'try', 'nested', 'instances', 'instances', 'swap'))
+        if shape == 'swap':
+            # loop-carried mutual assignment of two names (an evaluation cycle), one of them also rebound in a branch
+            other = r.choice([v for v in self.names if v != name] or [name + '2'])
+            cls = ['KA', 'KB', 'KC']
+            defs = [['class', c, [], [['assign', 'attr', "'%s'" % c], ['assign', 'only_' + c, '1']]] for c in cls]
+            body = [['assign', name, other],
+                    ['if', self.expr(1), [['assign', other, 'KC()']], [], None],
+                    ['assign', other, name]]
+            if r.random() < 0.5:
+                body.insert(1, ['expr', 'print(%s.attr)' % name])
+            loop = ['while', self.expr(1), body, None] if r.random() < 0.5 else ['for', 'zi', self.expr(1), body, None]
+            self.budget -= n
+            return ['seq', defs + [['assign', name, 'KA()'], ['assign', other, 'KB()'], loop,
+                                   ['expr', 'print(%s.attr, %s.attr)' % (name, other)],
+                                   ['assign', self.var(), other]]]
         if shape == 'instances':
             # alternatives are instances (or the classes themselves) of classes that share attribute names
             cls = ['KA', 'KB', 'KC'][:r.choice((2, 3))]
